@@ -148,6 +148,50 @@ class Stale: pass
                "second document over a frame with another column count sharing the body",
         what="defaults written at construction land in the document's own components; objects passed by the caller keep the values "
              "the caller gave them, so a component shared by two documents behaves as if fresh in each"))
+    # O6: rendering the column headers leaves the document's own header objects untouched (encode twice = encode once)
+    obs.append(Ob(
+        oid="O6.headers_not_written", sig="h1: int, h2: int, as_colheader: bool, first: bool, has_pf: bool, cols: int",
+        pre=["0 <= h1 <= 2 and 0 <= h2 <= 2", "2 <= cols <= 3"], timeout=T,
+        header=r'''
+from vf.hlib import NS, concrete_int
+from vf import minipl
+import rtflite as rtf
+from rtflite.encoding.renderer import PageRenderer
+import rtflite.encoding.renderer as rmod
+from rtflite.services.document_service import RTFDocumentService
+def mkh(kind):
+    if kind == 0:
+        return rtf.RTFColumnHeader()                                   # text None: auto header from the column names
+    if kind == 1:
+        return rtf.RTFColumnHeader(text=["A", "B"], col_rel_width=[1, 2])
+    return None
+''',
+        body=r'''
+    hs = [h for h in (mkh(concrete_int(h1, 0, 2)), mkh(concrete_int(h2, 0, 2))) if h is not None]
+    before = [h.model_dump() for h in hs]
+    ncol = concrete_int(cols, 2, 3)
+    doc = NS(rtf_column_header=hs, rtf_body=NS(as_colheader=as_colheader, col_rel_width=[1.0] * ncol, subline_by=None),
+             rtf_page=NS(border_first="double" if has_pf else None, col_width=6.0), rtf_footnote=None, rtf_source=None)
+    reserved_before = RTFDocumentService.calculate_additional_rows_per_page(NS(), doc)
+    r = PageRenderer.__new__(PageRenderer)
+    r.encoding_service = NS(encode_column_header=lambda text, hdr, w: ["HROW"] if text is not None else None)
+    page = NS(is_first_page=first, data=minipl.Frame({"c%d" % j: ["x"] for j in range(ncol)}), table_attrs=NS(col_rel_width=[1.0] * ncol))
+    saved = rmod.pl
+    rmod.pl = minipl.pl
+    try:
+        out1 = PageRenderer._render_column_headers(r, doc, page)
+        out2 = PageRenderer._render_column_headers(r, doc, page)
+    finally:
+        rmod.pl = saved
+    same = [h.model_dump() for h in hs] == before and out1 == out2
+    return same and RTFDocumentService.calculate_additional_rows_per_page(NS(), doc) == reserved_before
+''',
+        funcs=["rtflite.encoding.renderer:PageRenderer._render_column_headers",
+               "rtflite.services.document_service:RTFDocumentService.calculate_additional_rows_per_page"],
+        stubs=["polars -> vf.minipl model", "encode_column_header -> recorder", "document/page -> namespaces around REAL RTFColumnHeader objects"],
+        bounds="0..2 header rows (auto text | explicit), 2..3 displayed columns, as_colheader / first page / page border symbolic; rendered twice",
+        what="rendering column headers does not modify the document's header objects, so a second encode renders - and reserves rows - "
+             "exactly as the first"))
     meta = {
         "explanation": "Instead of exploring histories, the pre-state is made symbolic: for an ARBITRARY residual colour context "
                        "(the only process-global state the encode path reads, cf. the census of C15) the real encode paths must "
